@@ -93,6 +93,12 @@ func (r *Rule) isStatReusable(newRule *Rule) bool {
 	if newRule == nil {
 		return false
 	}
+	if r.Strategy == SlowRequestRatio && r.MaxAllowedRtMs != newRule.MaxAllowedRtMs {
+		// The statistic of this strategy holds verdicts, not response times: how many requests were
+		// slower than the limit of the rule that counted them. Under another limit they say nothing,
+		// and a breaker that took them over opened on requests that were never slow for it.
+		return false
+	}
 	return r.Resource == newRule.Resource && r.Strategy == newRule.Strategy && r.StatIntervalMs == newRule.StatIntervalMs &&
 		r.StatSlidingWindowBucketCount == newRule.StatSlidingWindowBucketCount
 }
